@@ -76,6 +76,11 @@ func mkBatch(o, size int, withQual bool) obiiter.BioSequenceBatch {
 			q := make([]byte, len(s))
 			for i := range q {
 				q[i] = byte((i + o + k) % 41)
+				if (o+k)%3 == 0 {
+					// any score a record can hold (one byte): a Sanger file decoded as Solexa, merged reads ... reach
+					// 94..255, which the writer saturates to the highest printable character
+					q[i] = byte((i*37 + o*13 + k*29) % 256)
+				}
 			}
 			bs = obiseq.NewBioSequenceWithQualities(recID(o, k), []byte(s), "", q)
 		} else {
@@ -221,6 +226,8 @@ func tokenize(format string, data []byte) []string {
 			toks = append(toks, id)
 			if len(lines[i+1]) != len(lines[i+3]) {
 				toks = append(toks, "junk:quality-length-of-"+id)
+			} else if strings.IndexFunc(lines[i+3], func(r rune) bool { return r < 33 || r > 126 }) >= 0 {
+				toks = append(toks, "junk:quality-characters-of-"+id)
 			} else if want, ok := seqOfID(id); ok && want != lines[i+1] {
 				toks = append(toks, "junk:sequence-of-"+id)
 			}
